@@ -83,6 +83,15 @@ impl Var {
         Err(error!(IllegalFunctionCall))
     }
 
+    /// The letter that selects the DEFtype of an unsuffixed name. A function
+    /// parameter is stored as "FNX.P" and is typed by its own name P.
+    fn type_letter(var_name: &str) -> Option<char> {
+        match var_name.rfind('.') {
+            Some(dot) => var_name[dot + 1..].chars().next(),
+            None => var_name.chars().next(),
+        }
+    }
+
     pub fn fetch(&self, var_name: &Rc<str>) -> Val {
         match self.vars.get(var_name) {
             Some(val) => val.clone(),
@@ -97,7 +106,7 @@ impl Var {
                     Val::Integer(0)
                 } else {
                     use VarType::*;
-                    if let Some(idx) = var_name.chars().next() {
+                    if let Some(idx) = Var::type_letter(var_name) {
                         debug_assert!(idx.is_ascii_uppercase());
                         match self.types[idx as usize - 'A' as usize] {
                             Integer => Val::Integer(0),
@@ -198,7 +207,7 @@ impl Var {
             self.insert_integer(var_name, value)
         } else if var_name.ends_with('$') {
             self.insert_string(var_name, value)
-        } else if let Some(idx) = var_name.chars().next() {
+        } else if let Some(idx) = Var::type_letter(var_name) {
             debug_assert!(idx.is_ascii_uppercase());
             use VarType::*;
             match self.types[idx as usize - 'A' as usize] {
